@@ -16,6 +16,14 @@ try:
     plan = json.loads(os.environ.get("VERIF_FAULT") or "null")
 except ValueError:
     pass
+# a standing behaviour of the tool (not a fault): e.g. pngquant declining a file with exit 99, in every
+# invocation including the clean reference build
+try:
+    beh = json.loads(os.environ.get("VERIF_BEHAVIOUR") or "null")
+except ValueError:
+    beh = None
+if beh and beh.get("tool") == name and beh.get("target", "") in " ".join(args):
+    sys.exit(int(beh.get("exit", 99)))
 if not plan or plan.get("tool") != name or plan.get("target", "") not in " ".join(args):
     os.execv(real, [real] + args)
 
